@@ -251,6 +251,23 @@ def run(ctx):
                     args = [a.s(x) for x in e.args]
                     if a.msgfield("price") not in args or a.msgfield("timestamp") not in args or a.msgfield("key") not in args:
                         bad = bad or "the stored (key, price, timestamp) are not the message's"
+                else:
+                    # the i-th price goes with the i-th timestamp: both arguments index their list with the same index
+                    args = [ix.inline(a.s(x)) for x in e.args]
+                    idx_of = {}
+                    for x in args:
+                        y = x
+                        while tag(y) in ("unwrap", "ok") or (tag(y) == "call" and str(payload(y)[0]).split("::")[-1] in ("clone", "copied", "cloned") and kids(y)):
+                            y = ix.inline(kids(y)[0])
+                        if tag(y) == "call" and str(payload(y)[0]).split("::")[-1] in ("index", "get") and len(kids(y)) == 2:
+                            base = ix.inline(kids(y)[0])
+                            for nm_ in ("prices", "timestamps"):
+                                if base == a.msgfield(nm_):
+                                    idx_of[nm_] = ix.inline(kids(y)[1])
+                    if a.msgfield("key") not in args:
+                        bad = bad or "the stored key is not the message's"
+                    if set(idx_of) != {"prices", "timestamps"} or idx_of["prices"] != idx_of["timestamps"]:
+                        bad = bad or "the stored (price, timestamp) are not msg.prices[i], msg.timestamps[i] for one index i (%s)" % {k_: sym.show(v_, 3) for k_, v_ in idx_of.items()}
         ctx.inst("R18.3", "stored-unmodified:%s" % variant, bad is None and n > 0, a.fn.where(), bad or "%d store sites: element {price: arg, timestamp: from_seconds(arg)} appended to the loaded list" % n)
     try:
         qa = arms.Arm(ix, PF, "GetPrice", entry="query")
